@@ -23,16 +23,22 @@ def plan(quick):
         # cost = estimated CPU seconds of the job (measured on this machine; only decides shard counts and whether a
         # bound still fits before the deadline)
         return [dict(container=cont, mode=m, start=start, flavour=flav, minlen=lo, maxlen=hi, cost=cost) for m in modes]
-    G = [("plain build, quick lengths",
-          J("dynar", DM, 0, "plain", 0, 5, 4) + J("dict", KM, 0, "plain", 0, 5, 8) + J("dynar", DM, 6, "plain", 0, 4, 8) +
-          J("dict", KM, 102, "plain", 0, 4, 6) + J("dict", KM, 204, "plain", 0, 3, 2)),
+    G = [("both builds, short histories",
+          J("dynar", DM, 0, "plain", 0, 4, 1) + J("dict", KM, 0, "plain", 0, 4, 1) + J("dynar", DM, 6, "plain", 0, 3, 1) +
+          J("dict", KM, 102, "plain", 0, 3, 1) + J("dict", KM, 204, "plain", 0, 2, 1) +
+          J("dynar", DM, 0, "asan", 0, 3, 1) + J("dict", KM, 0, "asan", 0, 3, 1) + J("dynar", DM, 6, "asan", 0, 2, 1) +
+          J("dict", KM, 102, "asan", 0, 2, 1)),
+         ("plain build, quick lengths",
+          J("dynar", DM, 0, "plain", 5, 5, 4) + J("dict", KM, 0, "plain", 5, 5, 8) + J("dynar", DM, 6, "plain", 4, 4, 8) +
+          J("dict", KM, 102, "plain", 4, 4, 6) + J("dict", KM, 204, "plain", 3, 3, 2)),
          ("ASan build, quick lengths",
-          J("dynar", DM, 0, "asan", 0, 4, 2) + J("dict", KM, 0, "asan", 0, 4, 8) + J("dynar", DM, 6, "asan", 0, 3, 8) +
-          J("dict", KM, 102, "asan", 0, 3, 3))]
+          J("dynar", DM, 0, "asan", 4, 4, 2) + J("dict", KM, 0, "asan", 4, 4, 8) + J("dynar", DM, 6, "asan", 3, 3, 8) +
+          J("dict", KM, 102, "asan", 3, 3, 3))]
     if quick:
         return G
-    G += [("plain build, one step longer",
-           J("dynar", DM, 0, "plain", 6, 6, 70) + J("dict", KM, 0, "plain", 6, 6, 110) +
+    G += [("plain build, from empty, length 6",
+           J("dynar", DM, 0, "plain", 6, 6, 70) + J("dict", KM, 0, "plain", 6, 6, 110)),
+          ("plain build, from the prefilled starts, one step longer",
            J("dynar", DM, 6, "plain", 5, 5, 200) + J("dict", KM, 102, "plain", 5, 5, 90) +
            J("dict", KM, 204, "plain", 4, 4, 12)),
           ("ASan build, one step longer",
